@@ -1099,8 +1099,10 @@ class RGraph:
                 if parent_component_bump.to_rbuild is not None:
                     prev_rbuild = parent_component_bump.to_rbuild
                     from_rbuilds[prev_rbuild.iid] = prev_rbuild
-                else:
-                    from_rbuilds.update(parent_component_bump.from_rbuilds)
+                # builds of the component shipped with the earlier builds remain
+                # shipped: the component version may have moved to a parallel
+                # build, which does not contain some of them
+                from_rbuilds.update(parent_component_bump.from_rbuilds)
 
             if cur_component_rbuild is None and from_rbuilds:
                 # quite unusual situation: current commit references missing version
